@@ -21,6 +21,7 @@ import (
 	"encoding/json"
 	"fmt"
 	"net/http"
+	"reflect"
 	"sort"
 	"strings"
 
@@ -302,6 +303,7 @@ type world struct {
 	effectiveStops int
 	faultsHit      int
 	lastRun        *verifsim.Run
+	hashCache      map[uintptr]cachedHash
 }
 
 type worldSnap struct {
@@ -1056,10 +1058,9 @@ func (w *world) digest() string {
 	sort.Slice(keys, func(i, j int) bool { return keys[i].String() < keys[j].String() })
 	h := sha256.New()
 	for _, k := range keys {
-		b, _ := json.Marshal(canon(st[k]))
 		h.Write([]byte(k.String()))
 		h.Write([]byte{'='})
-		h.Write(b)
+		h.Write(w.objHash(st[k]))
 		h.Write([]byte{'\n'})
 	}
 	var run []string
@@ -1074,6 +1075,28 @@ func (w *world) digest() string {
 		fmt.Fprintf(h, "|%d:%v:%s", i, c, w.xrNames[i])
 	}
 	return string(h.Sum(nil))
+}
+
+// objHash caches the canonical hash of a stored object. Stored objects are
+// immutable maps; the cache keeps a reference to each, so a map's address is
+// never reused for different content while the cache lives.
+func (w *world) objHash(o verifsim.Obj) []byte {
+	p := reflect.ValueOf(o).Pointer()
+	if c, ok := w.hashCache[p]; ok {
+		return c.sum
+	}
+	b, _ := json.Marshal(canon(o))
+	sum := sha256.Sum256(b)
+	if w.hashCache == nil {
+		w.hashCache = map[uintptr]cachedHash{}
+	}
+	w.hashCache[p] = cachedHash{obj: o, sum: sum[:]}
+	return sum[:]
+}
+
+type cachedHash struct {
+	obj verifsim.Obj
+	sum []byte
 }
 
 // nonTrivial is the property's rule: the history contains a user delete and at
